@@ -119,7 +119,11 @@ def rule_should_process(ctx, crate):
                   "%s(self.%s, param%d, param%d)" % (T.short(name), fld, want[0], want[1]),
                   "%s receives parameters %s of should_process (expected %s: source first, destination second) on self.%s=%s" % (
                       T.short(name), got, want, fld, recv_ok), ctx.loc(b, blk))
-    ctx.floor("R6", crate + " matches call sites in should_process", n, 6)
+    # one call per sub-filter kind at least (the reference writes each twice: once per mode arm)
+    ctx.floor("R6", crate + " matches call sites in should_process", n, 3)
+    kinds = {x for x in ("PortFilter", "IpFilter", "SubnetFilter") for _, t in Q.calls(b, "::matches") if x in callee_of(t)}
+    ctx.check(kinds == {"PortFilter", "IpFilter", "SubnetFilter"}, "R6", inst + ":all-sub-filters", "port, address and subnet filters are all consulted",
+              "should_process consults only %s" % sorted(kinds), ctx.loc(b))
 
 
 def _fmt(asg):
@@ -167,8 +171,17 @@ def rule_port_matches(ctx, crate):
             port = "dst"
         if callee.endswith("::contains") and port:
             return ("in", flds, port)
-        if callee.endswith("::any") and port:
-            return ("in", flds, port)
+        if callee.endswith("::any") and len(t[2]) == 2:
+            # meaning of the predicate closure at this site: item == p / lo <= p <= hi, for one port or for either
+            flds = frozenset(PORT_FIELDS[f] for f in _self_fields(t[2][0]) if f in PORT_FIELDS)
+            cl = T.strip(t[2][1])
+            if not flds or not (cl[0] == "agg" and cl[1] == "closure"):
+                return None
+            sem = _closure_sem(P, cl)
+            if sem[0] == "eq" and flds <= {"sp", "dp"} or sem[0] == "range" and flds <= {"sr", "dr"}:
+                atoms = [("in", flds, p_) for p_ in sorted(sem[1], reverse=True)]
+                return atoms[0] if len(atoms) == 1 else ("OR",) + tuple(atoms)
+            return None
         return None
 
     def cond_key(c):
@@ -218,90 +231,209 @@ def rule_port_matches(ctx, crate):
     else:
         ctx.ok("R2", inst, "%d feasible valuations of 13 atoms over %d paths agree with the documented rule (each constrained side must match; any-port = union)"
                % (stats["valuations"], stats["rows"]), ctx.loc(b))
-    # R3 range closures
-    cl = P.closures_of(b.path)
+    # R3 membership closures, per call site (the same closure body may be instantiated for the source and for the destination port)
+    S = T.Slicer(b, P)
     n = 0
-    for c in cl:
-        n += 1
-        _range_closure(ctx, c, crate)
-    ctx.floor("R3", crate + " range closures", n, 4)
+    seen_sites = set()
+    for blk, t in Q.calls(b, "::any"):
+        args = Q.call_args(b, S, blk, t)
+        cl = T.strip(args[1]) if len(args) > 1 else None
+        if cl is None or not (cl[0] == "agg" and cl[1] == "closure"):
+            continue
+        sem = _closure_sem(P, cl)
+        inst2 = "%s:%s@%s" % (crate, T.short(cl[2]), "+".join(sorted(sem[1])) if sem[0] != "bad" else "?")
+        k = 0
+        while (inst2, k) in seen_sites:
+            k += 1
+        seen_sites.add((inst2, k))
+        if k:
+            inst2 += "#%d" % k
+        if sem[0] == "range":
+            n += len(sem[1])
+            ctx.ok("R3", inst2, "lo <= p && p <= hi on all order cases for p in %s" % sorted(sem[1]), ctx.loc(b, blk))
+        elif sem[0] == "eq":
+            ctx.ok("R3", inst2, "item == p for p in %s (list membership written as any)" % sorted(sem[1]), ctx.loc(b, blk))
+        else:
+            ctx.fail("R3", inst2, "range predicate wrong: %s" % sem[1], ctx.loc(b, blk))
+    ctx.floor("R3", crate + " (range test, port) pairs", n, 4)
 
 
-def _range_closure(ctx, c, crate):
-    P = ctx.program
-    rows = D.decision_rows(P, c)
-    inst = "%s:%s" % (crate, T.short(c.path))
+_SEM_MEMO = {}
+
+
+def _closure_sem(P, cl):
+    """Meaning of a membership closure at one call site: ("eq", ports) - true iff the item equals one of the captured ports;
+    ("range", ports) - true iff one of the captured ports lies in the inclusive (lo, hi) item; ("bad", why) otherwise.
+    Decided by evaluating the closure's decision rows on every order scenario (4 for eq, 81 for range)."""
+    import itertools
+    path = cl[2]
+    c = P.bodies.get(path)
+    if c is None:
+        return ("bad", "closure body missing")
+    ports_of_env = []
+    for o in cl[4]:
+        ps = _params(o)
+        ports_of_env.append({1: "src", 2: "dst"}.get(next(iter(ps))) if len(ps) == 1 else None)
+    key = (path, tuple(ports_of_env))
+    if key in _SEM_MEMO:
+        return _SEM_MEMO[key]
 
     def classify(t):
+        t = T.strip(t)
         ps = _params(t)
         if ps == {0}:
-            return "p"
+            ks = [x[2] for x in T.walk(t) if x[0] == "field" and isinstance(x[2], int)]
+            if len(ks) >= 1 and ks[-1] < len(ports_of_env) and ports_of_env[ks[-1]]:
+                return ("port", ports_of_env[ks[-1]])
+            return None
         if ps == {1}:
-            idx = [x[2] for x in T.walk(t) if x[0] == "field"]
-            if idx and idx[-1] in (0, 1, "0", "1"):
-                return "lo" if int(idx[-1]) == 0 else "hi"
+            idx = [x[2] for x in T.walk(t) if x[0] == "field" and x[2] in (0, 1, "0", "1")]
+            if idx:
+                return ("lo",) if int(idx[-1]) == 0 else ("hi",)
+            return ("item",)
         return None
 
-    def relation(c_):
-        # -> (bound, set of orders of p relative to bound for which the condition holds)
-        op, a, b, pol = c_[1], c_[2], c_[3], c_[4]
-        ka, kb = classify(a), classify(b)
-        if ka == "p" and kb in ("lo", "hi"):
-            bound, o = kb, op
-        elif kb == "p" and ka in ("lo", "hi"):
-            bound, o = ka, {"Lt": "Gt", "Gt": "Lt", "Le": "Ge", "Ge": "Le"}.get(op, op)
-        else:
-            return None
-        holds = {"Lt": {"<"}, "Le": {"<", "="}, "Gt": {">"}, "Ge": {">", "="}, "Eq": {"="}, "Ne": {"<", ">"}}[o]
-        if not pol:
-            holds = {"<", "=", ">"} - holds
-        return bound, holds
+    used = set()
 
-    bad = None
-    for rlo in "<=>":
-        for rhi in "<=>":
-            # infeasible order combos given lo <= hi are still checked: the closure must be right for any stored tuple
-            vals = set()
-            for r in rows or []:
-                okrow = True
-                for cc in r.conds:
-                    if cc[0] != "cmp":
-                        okrow = None
-                        break
-                    rel = relation(cc)
-                    if rel is None:
-                        okrow = None
-                        break
-                    bound, holds = rel
-                    cur = rlo if bound == "lo" else rhi
-                    if cur not in holds:
-                        okrow = False
-                        break
-                if okrow is None:
-                    bad = "condition not understood"
+    def rel(op, a, b_, scen):
+        ka, kb = classify(a), classify(b_)
+        if ka is None or kb is None:
+            return None
+        if ka[0] != "port":
+            ka, kb = kb, ka
+            op = {"Lt": "Gt", "Gt": "Lt", "Le": "Ge", "Ge": "Le"}.get(op, op)
+        if ka[0] != "port":
+            return None
+        pname = ka[1]
+        if kb[0] == "item":
+            used.add("eq")
+            e = scen.get(("eq", pname))
+            if op == "Eq":
+                return e
+            if op == "Ne":
+                return not e
+            return None
+        used.add("range")
+        o = scen.get(("ord", pname, kb[0]))
+        holds = {"Lt": {"<"}, "Le": {"<", "="}, "Gt": {">"}, "Ge": {">", "="}, "Eq": {"="}, "Ne": {"<", ">"}}[op]
+        return o in holds
+
+    def ev(t, scen):
+        t = T.strip(t)
+        while t[0] in ("deref", "ref") and not _params(t) - {0, 1} and False:
+            pass
+        if t[0] == "const" and isinstance(t[1], bool):
+            return t[1]
+        if t[0] == "unop" and t[1] == "Not":
+            v = ev(t[2], scen)
+            return None if v is None else not v
+        if t[0] == "binop" and t[1] in ("BitOr", "BitAnd"):
+            x, y = ev(t[2], scen), ev(t[3], scen)
+            if x is None or y is None:
+                return None
+            return (x or y) if t[1] == "BitOr" else (x and y)
+        if t[0] == "binop" and t[1] in ("Lt", "Le", "Gt", "Ge", "Eq", "Ne"):
+            return rel(t[1], t[2], t[3], scen)
+        if t[0] == "call" and t[1].endswith("::contains") and "RangeInclusive" in t[1] and len(t[2]) == 2:
+            rng = T.strip(t[2][0])
+            while rng[0] in ("ref", "deref"):
+                rng = T.strip(rng[2] if rng[0] == "ref" else rng[1])
+            if rng[0] == "call" and rng[1].endswith("RangeInclusive::<Idx>::new") and len(rng[2]) == 2:
+                lo, hi = classify(rng[2][0]), classify(rng[2][1])
+                if lo == ("lo",) and hi == ("hi",):
+                    x = rel("Ge", t[2][1], rng[2][0], scen)
+                    y = rel("Le", t[2][1], rng[2][1], scen)
+                    if x is None or y is None:
+                        return None
+                    return x and y
+            return None
+        if t[0] == "call" and "PartialEq" in t[1] and t[1].endswith(("::eq", "::ne")) and len(t[2]) == 2:
+            v = rel("Eq", t[2][0], t[2][1], scen)
+            return None if v is None else (v if t[1].endswith("::eq") else not v)
+        if t[0] == "phi":
+            vs = {ev(x, scen) for x in t[1]}
+            return vs.pop() if len(vs) == 1 else None
+        return None
+
+    def cond_true(cn, scen):
+        if cn[0] == "cmp":
+            v = rel(cn[1], cn[2], cn[3], scen)
+            return None if v is None else (v == cn[4])
+        if cn[0] == "bool":
+            v = ev(cn[1], scen)
+            return None if v is None else (v == cn[2])
+        return None
+
+    rows = D.decision_rows(P, c)
+    if rows is None:
+        res = ("bad", "too many paths")
+        _SEM_MEMO[key] = res
+        return res
+    ports = sorted({x for x in ports_of_env if x})
+    if not ports:
+        res = ("bad", "closure captures no port")
+        _SEM_MEMO[key] = res
+        return res
+
+    def value(scen):
+        vals = set()
+        for r in rows:
+            ok = True
+            for cn in r.conds:
+                v = cond_true(cn, scen)
+                if v is None:
+                    return "condition not understood: " + str(cn)[:80]
+                if not v:
+                    ok = False
                     break
-                if okrow:
-                    rv = r.ret
-                    if rv[0] == "const" and isinstance(rv[1], bool):
-                        vals.add(rv[1])
-                    elif rv[0] == "binop" and rv[1] in ("Le", "Ge", "Lt", "Gt"):
-                        rel = relation(("cmp", rv[1], rv[2], rv[3], True))
-                        if rel is None:
-                            bad = "return not understood"
-                        else:
-                            bound, holds = rel
-                            vals.add((rlo if bound == "lo" else rhi) in holds)
-                    else:
-                        bad = "return not understood: " + T.pp(rv)
-            want = (rlo in ("=", ">")) and (rhi in ("<", "="))
-            if bad:
-                break
-            if vals != {want}:
-                bad = "for p %s lo and p %s hi the closure yields %s, inclusive range gives %s" % (rlo, rhi, sorted(vals), want)
-                break
-        if bad:
+            if ok:
+                rv = ev(r.ret, scen)
+                if rv is None:
+                    return "return not understood: " + T.pp(r.ret)[:80]
+                vals.add(rv)
+        if len(vals) != 1:
+            return "paths disagree: %s" % sorted(vals)
+        return vals.pop()
+
+    # probe which vocabulary the closure uses
+    probe = value({("eq", p_): False for p_ in ports} | {("ord", p_, bnd): "=" for p_ in ports for bnd in ("lo", "hi")})
+    if isinstance(probe, str):
+        res = ("bad", probe)
+        _SEM_MEMO[key] = res
+        return res
+    if used == {"eq"}:
+        scens = [dict(zip([("eq", p_) for p_ in ports], bits)) for bits in itertools.product((False, True), repeat=len(ports))]
+        want = lambda scen, sub: any(scen[("eq", p_)] for p_ in sub)
+        kind = "eq"
+    elif used == {"range"}:
+        keys = [("ord", p_, bnd) for p_ in ports for bnd in ("lo", "hi")]
+        scens = [dict(zip(keys, o)) for o in itertools.product("<=>", repeat=len(keys))]
+        want = lambda scen, sub: any(scen[("ord", p_, "lo")] in ("=", ">") and scen[("ord", p_, "hi")] in ("<", "=") for p_ in sub)
+        kind = "range"
+    else:
+        res = ("bad", "closure mixes equality and range tests (%s)" % sorted(used))
+        _SEM_MEMO[key] = res
+        return res
+    subsets = [frozenset(x) for k in range(1, len(ports) + 1) for x in itertools.combinations(ports, k)]
+    table = []
+    for scen in scens:
+        v = value(scen)
+        if isinstance(v, str):
+            res = ("bad", v)
+            _SEM_MEMO[key] = res
+            return res
+        table.append((scen, v))
+    res = None
+    for sub in subsets:
+        if all(v == want(scen, sub) for scen, v in table):
+            res = (kind, sub)
             break
-    ctx.check(not bad, "R3", inst, "lo <= p && p <= hi on all 9 order cases", "range predicate wrong: %s" % bad, ctx.loc(c))
+    if res is None:
+        bad = [(scen, v) for scen, v in table if v != want(scen, frozenset(ports))][:1]
+        res = ("bad", "not the inclusive test `lo <= p && p <= hi` / `item == p`: e.g. %s gives %s" % (
+            {"%s %s %s" % (k[1], o, k[2]) if k[0] == "ord" else "%s==item:%s" % (k[1], o) for k, o in bad[0][0].items()} if bad else "?", bad[0][1] if bad else "?"))
+    _SEM_MEMO[key] = res
+    return res
 
 
 # ---------------------------------------------------------------------------
@@ -370,7 +502,14 @@ def rule_ip_matches(ctx, crate, ty, v4list, v6list):
     # subnet closures: net.contains(addr)
     if ty == "SubnetFilter":
         n = 0
-        for c in P.closures_of(b.path):
+        SB = T.Slicer(b, P)
+        site_closures = []
+        for blk_, t_ in Q.calls(b, "::any"):
+            a_ = Q.call_args(b, SB, blk_, t_)
+            cl_ = T.strip(a_[1]) if len(a_) > 1 else None
+            if cl_ is not None and cl_[0] == "agg" and cl_[1] == "closure" and cl_[2] in P.bodies:
+                site_closures.append(P.bodies[cl_[2]])
+        for c in site_closures:
             cs = [t for _, t in c.calls() if callee_of(t).endswith("::contains")]
             S = T.Slicer(c, P)
             good = False
@@ -381,7 +520,7 @@ def rule_ip_matches(ctx, crate, ty, v4list, v6list):
                 good = _params(args[0]) == {1} and _params(args[1]) == {0} and t["dest"]["l"] == 0
             n += 1
             ctx.check(good, "R4", "%s:%s" % (crate, T.short(c.path)), "|net| net.contains(addr)", "subnet closure is not `net.contains(addr)`", ctx.loc(c))
-        ctx.floor("R4", crate + " subnet closures", n, 4)
+        ctx.floor("R4", crate + " subnet membership sites (any + closure)", n, 4)
 
 
 # ---------------------------------------------------------------------------
